@@ -74,7 +74,7 @@ Qed.
 
 (* one factor fits mode j of X *)
 Definition fitp (X U : tensor F) (j : nat) : Prop :=
-  exists r c, shape U = [nth j (shape X) 0; r] /\ orthonormal_cols Op U (nth j (shape X) 0) r /\ mode_span Op X U j r c.
+  exists r c, shape U = [nth j (shape X) 0; r] /\ semi_orthonormal_cols Op U (nth j (shape X) 0) r /\ mode_span Op X U j r c.
 
 Fixpoint factors_span_sk (skip : option nat) (X : tensor F) (fs : list (tensor F)) (k : nat) : Prop :=
   match fs with
@@ -113,7 +113,7 @@ Proof.
     + destruct (IH (S k) X WX ltac:(lia) Hrest) as (core & Hc1 & Hc2). exists core.
       rewrite multi_cons, Esk. auto.
     + destruct H1 as (r & c & HU & Horth & Hspan).
-      destruct (mode_projector_exact Op Rth X U k r c WX ltac:(lia) HU Horth Hspan) as (Y & HY & HsY & _ & HYX).
+      destruct (mode_projector_exact_semi Op Rth X U k r c WX ltac:(lia) HU Horth Hspan) as (Y & HY & HsY & HYX).
       pose proof (mode_dot_inv Op _ _ _ _ _ HY) as [HokY EY].
       assert (WY : wf Y) by (rewrite EY; apply wf_md).
       assert (HrestY : factors_span_sk skip Y fs (S k)).
